@@ -171,6 +171,21 @@ func (r *Rollback) performRollback(currentRelease, targetRelease *release.Releas
 	if err != nil {
 		return targetRelease, errors.Wrap(err, "unable to build kubernetes objects from current release manifest")
 	}
+	// When the latest revision is not the deployed one (a failed or pending upgrade), the
+	// cluster may still hold resources that only the deployed revision names: make them part
+	// of the diff base, so that they are updated or removed instead of being left behind or
+	// reported as missing.
+	if currentRelease.Info.Status != release.StatusDeployed {
+		if dep, derr := r.cfg.Releases.Deployed(currentRelease.Name); derr == nil && dep.Version != currentRelease.Version {
+			if depResources, derr := r.cfg.KubeClient.Build(bytes.NewBufferString(dep.Manifest), false); derr == nil {
+				for _, info := range depResources {
+					if current.Get(info) == nil {
+						current.Append(info)
+					}
+				}
+			}
+		}
+	}
 	target, err := r.cfg.KubeClient.Build(bytes.NewBufferString(targetRelease.Manifest), false)
 	if err != nil {
 		return targetRelease, errors.Wrap(err, "unable to build kubernetes objects from new release manifest")
